@@ -10,7 +10,7 @@ ASSUME = ["TLC evaluates the relation 'cat' (out(A;B) = out(A) o out(B)) on the 
 
 
 def run(ctx):
-    ctx.build()
+    ctx.build(need_cli=True)
     quick = ctx.tier == "quick"
     rng = random.Random(ctx.seed)
     R = flow.Runner(ctx)
@@ -162,6 +162,35 @@ def run(ctx):
             nrep += 1
     npairs += nrep
     R.run()
+    # through the real command (cmd/gosk reads and decodes the file itself): string data with bytes above 0x7f - Shift_JIS text, some
+    # of it also valid UTF-8 - next to each other and alone; what the command makes of one statement's text must not depend on the
+    # bytes of its neighbours.  The runs are recorded as result-only cases (no hooks) and judged by the same relation.
+    import hashlib, os, re
+    def cli_case(raw):
+        cid = R.add([], src=raw.decode("latin-1"), notrace=True)
+        d = os.path.join(ctx.scratch, "cli14_%d" % cid)
+        os.makedirs(d)
+        sp, dp = os.path.join(d, "in.nas"), os.path.join(d, "out.bin")
+        open(sp, "wb").write(raw)
+        r = ctx.run_cli([sp, dp], cwd=d)
+        out = open(dp, "rb").read() if os.path.isfile(dp) else b""
+        text = (r["out"] + r["err"]).decode("latin-1")
+        nerr = len(re.findall(r"\[ *(error|alert) *\]", text)) + len(re.findall(r"(?m)^(\[[^\]]*\] )?Error", text))
+        R.results[cid] = [{"e": "end", "id": cid, "status": "ok" if r["rc"] == 0 and not r["timeout"] else "exit", "exit": r["rc"], "out": list(out),
+                           "sha": hashlib.sha256(out).hexdigest(), "outlen": len(out), "nstmt": -1, "loc": 0, "fmt": "", "diag": {"error": nerr, "Error": 0},
+                           "stdout": text[:400] if "GOSK :" in text else ""}]
+        return cid
+    dbs = lambda b: b'\tDB\t"' + b + b'"\n'
+    hi = [b"\xc3\xa9", b"\xb1", b"\xb1\xb2\xb3", b"\xc4\xb3\xc3\xb7", b"\x93\xfa\x96\x7b", b"abc", b"\xd0\xa0"]
+    ncli = 0
+    for x in hi:
+        for y in hi:
+            if x == y:
+                continue
+            a, b, ab = cli_case(dbs(x)), cli_case(dbs(y)), cli_case(dbs(x) + dbs(y))
+            R.rel("catany", ["C14"], a=a, b=b, ab=ab)
+            ncli += 1
+    npairs += ncli
     return relcheck.finish(ctx, "C14", R, None,
                            "seeded label-free, position-independent statement sequences of length 1..4 (instruction and data forms of spec/Gen_Prog.tla, both modes): out(A;B) = out(A) o out(B) for both orders, "
                            "and single-statement insertions at random positions of 10-statement programs (out(X;s;Y) = out(X) o out(s) o out(Y))", ASSUME, extra={"relations": npairs})
